@@ -24,9 +24,11 @@ _I = ((1.0, 0.0), (0.0, 1.0))
 _A1 = ((1.0, 0.0), (0.0, 1.0 / 16))
 _A2 = ((1.0 / 16, 0.0), (0.0, 1.0))
 _C = ((1.0, 0.8), (0.8, 1.0))
+_CN = ((1.0, -0.8), (-0.8, 1.0))
 ELL_ALPHA = [
     ((0, 0), _I, 1.0), ((0, 0), _I, 0.5), ((1.5, 1.5), _I, 0.5), ((2, 2), _A1, 1.0), ((2, 0), _I, 0.5),
     ((0, 2), _C, 1.0), ((3, 3), _I, 1.0), ((1, 1), _A2, 0.5), ((2.5, 2.5), _I, 0.25), ((2.625, 2.625), _I, 0.125),
+    ((2, 1), _C, 0.5), ((1, 2), _CN, 1.0),  # more correlated / anti-correlated shapes (orientation matters)
 ]
 EPS = [0.6, 1.2]
 
@@ -39,7 +41,7 @@ def alphabet(kind, m, small=False):
         return [("rect", np.array(lo, float), np.array(hi, float)) for lo, hi in a]
     a = ELL_ALPHA
     if small:
-        a = [a[i] for i in (0, 2, 3, 5)]
+        a = [a[i] for i in (0, 2, 3, 5, 10, 11)]
     return [("ell", np.array(c, float), np.array(S, float), float(r)) for c, S, r in a]
 
 
